@@ -18,3 +18,9 @@ func verifLoad(c *Config) error {
 	_, err := LoadConfig("verif.yaml")
 	return err
 }
+
+// VerifLoadConfig: the configuration value LoadConfig returns for a file that denotes c.
+func VerifLoadConfig(c *Config) (*Config, error) {
+	verifFileConfig = c
+	return LoadConfig("verif.yaml")
+}
